@@ -11,7 +11,7 @@ T = {
          "Sampled texts x critical environments compared with the installed packaging; atom table enumerated.", "§4 C03"),
  "C04": ("membership monitors: tree-node `in`/contains vs packaging SpecifierSet over the leaves; post-conditions on every contains()/__contains__ call vs structural membership",
          "Sampled expression trees x derived final-release candidates; === stratum; reference asked about leaves only.", "§4 C04"),
- "C05": ("shape post-condition at every parser/operator return + exact pairwise == vs admitted-set comparison on shared critical points",
+ "C05": ("shape post-condition at every parser/operator return + exact pairwise == vs admitted-set comparison on shared critical points + denotation oracle (is_empty/is_any/== of results vs the set the whole expression denotes, incl. operator-free De Morgan paths)",
          "Canonical shape, is_empty/is_any and == are decided exactly for every observed value / pair.", "§3.3, §4 C05"),
  "C06": ("round-trip monitor str() -> parse_version_specifier -> == and exact vector equality at every tree node; enumerated neighbourhood of the rendering shortcuts",
          "Exact per rendered value; systematic stratum around ~=, ==X.*, !=X.*, !=V.", "§4 C06"),
@@ -27,7 +27,7 @@ T = {
          "Exhaustive operator x operand-shape stratum + all bridge calls made by the merge machinery during marker workloads.", "§4 C11"),
  "C12": ("post-conditions on only/exclude/without_extras of all marker classes: variable walk + implication/equivalence on critical environments",
          "Every call incl. recursive ones; nested/factored shapes enumerated.", "§4 C12"),
- "C13": ("in-situ __eq__ spies (True => equal hashes, symmetric) + object-zoo checker (reflexive, symmetric, transitive, dict lookup, interchangeability by signature)",
+ "C13": ("in-situ __eq__ spies (True => equal hashes, symmetric) + object-zoo checker (reflexive, symmetric, transitive, dict lookup, interchangeability by signature) incl. copy/pickle twins and twins built in another interpreter",
          "History of all __eq__ calls made by the library during workloads + sampled zoo pairs/triples.", "§3.2, §4 C13"),
  "C14": ("law monitors: 15 specifier law instances per triple decided by == of returned objects; 12 marker law instances decided by evaluation vectors",
          "Sampled triples over shared vocabularies.", "§4 C14"),
